@@ -218,6 +218,9 @@ class GrammarSemantics(ModelBuilderSemantics):
         if directives.get('whitespace') in {'None', 'False'}:
             # NOTE: use '' because None will _not_ override defaults in configuration
             directives['whitespace'] = ''
+        elif isinstance(directives.get('whitespace'), str):
+            # NOTE: the string form of the directive is a regular expression too
+            self._validate_pattern(directives['whitespace'])
 
         name = self.name or directives.get('grammar')
         grammar = g.Grammar(
